@@ -832,7 +832,7 @@ def step (st : St) (line : String) : St × String :=
   | "case" :: fl :: _ =>
     -- `w…` / `z…` flavours: the same code instantiated with a key type whose hashes collide resp. with zero-sized
     -- node and edge values (programs of the latter only use the value 0); the model has neither hashes nor sizes
-    let fl' := if fl.startsWith "w" || fl.startsWith "z" then (fl.drop 1).toString else fl
+    let fl' := if fl.startsWith "w" || fl.startsWith "z" || fl.startsWith "f" then (fl.drop 1).toString else fl
     ({ directed := fl' == "di" || fl' == "sdi", fl := fl' }, "case")
   | ["new", k, v] => match k.toNat?, v.toInt? with
     | some k, some v => ({ st with keys := st.keys ++ [k], nvals := st.nvals ++ [(k, v)] }, "ok")
